@@ -8,6 +8,8 @@ base64 (Model/Base64.lean) and about `Model.crc16`, the translation of `crypto/c
 import TonVerif.Model.Address
 import TonVerif.Proofs.Base64
 import TonVerif.Proofs.Address
+import TonVerif.Proofs.SrcB64
+import TonVerif.Generated.AddrTags
 
 namespace TonVerif.Properties.C13
 open TonVerif TonVerif.Model TonVerif.Model.Address TonVerif.Model.Base64
@@ -161,5 +163,82 @@ example : parse "-1:555555555555555555555555555555555555555555555555555555555555
     = some { wc := -1, hash := List.replicate 32 0x55 } := by
   decide +kernel
 example : sample.hash ≠ [] := by decide
+
+/-! ## Source-regenerated tag arithmetic (`Generated/AddrTags.lean`: re-translated from boc/address.py on every run)
+
+`Generated.addrTag bounceable testOnly` is the statement sequence of `Address.to_str` that computes the tag byte
+(`tag = 0x11`, `if not is_bounceable: tag = 0x51`, `if is_test_only: tag |= 0x80`); `Generated.b64TestOnly tag0 t0 b0` /
+`b64Bounceable tag0 t0 b0` are the final values of `self.is_test_only` / `self.is_bounceable` after the tag-decoding
+statements of `Address.is_b64` (`tag = decoded[0]` … `if tag == 0x11: self.is_bounceable = True`), as functions of the first
+decoded byte and of the flags' previous values (`False` in a fresh object). -/
+section Src
+open TonVerif.Proofs.SrcB64
+
+/-- the tag byte written by `to_str`, for all four flag combinations: 0x11 / 0x51, with 0x80 or-ed in for test-only. -/
+theorem c13_src_tag (b t : Bool) :
+    Generated.addrTag_sideOk b t ∧
+    Generated.addrTag b t = (if t then (if b then 0x11 else 0x51) ||| 0x80 else (if b then 0x11 else 0x51)) := by
+  refine ⟨by cases b <;> cases t <;> decide, ?_⟩
+  cases b <;> cases t <;> decide
+
+/-- the flags read back by `is_b64`, for EVERY byte value of `decoded[0]` and every previous flag value: test-only iff
+bit 7 is set (or it was set before), bounceable iff the tag with bit 7 cleared is exactly 0x11 (or it was set before). -/
+theorem c13_src_b64_flags : ∀ tag0 < 256, ∀ t0 b0 : Bool,
+    Generated.b64TestOnly_sideOk tag0 t0 b0 ∧ Generated.b64Bounceable_sideOk tag0 t0 b0 ∧
+    Generated.b64TestOnly tag0 t0 b0 = (t0 || (tag0 &&& 0x80) != 0) ∧
+    Generated.b64Bounceable tag0 t0 b0 = (b0 || (if (tag0 &&& 0x80) != 0 then tag0 ^^^ 0x80 else tag0) == 0x11) := by
+  decide +kernel
+
+/-- `to_str` of the hand model (what `c13_friendly_roundtrip`, `c13_substitution_rejected`, `c13_rerender` … are proved
+about) writes exactly the regenerated tag byte. -/
+theorem c13_src_model_to_str (a : Addr) (url b t : Bool) :
+    toStr a true url b t =
+      (match wcByte? a.wc with
+       | none => none
+       | some wcb =>
+         match Model.crc16 (Generated.addrTag b t :: wcb :: a.hash) with
+         | none => none
+         | some crc => some (Base64.encode url ((Generated.addrTag b t :: wcb :: a.hash) ++ crc))) := by
+  rw [(c13_src_tag b t).2]
+  cases b <;> cases t <;> rfl
+
+/-- `is_b64` of the hand model sets exactly the regenerated flags (a fresh object: both flags `False` before). -/
+theorem c13_src_model_b64 (s : List Char) :
+    isB64 s =
+      (match Base64.decodeUrlsafe s with
+       | none => none
+       | some [] => none
+       | some (tag0 :: rest) =>
+         let d := tag0 :: rest
+         match Model.crc16 (d.take 34) with
+         | none => none
+         | some crc =>
+           if d.drop 34 != crc then none
+           else some { wc := signedByte ((d.drop 1).take 1), hash := (d.drop 2).take 32,
+                       bounceable := Generated.b64Bounceable tag0 false false,
+                       testOnly := Generated.b64TestOnly tag0 false false }) := by
+  unfold isB64
+  cases hd : Base64.decodeUrlsafe s with
+  | none => rfl
+  | some d =>
+    cases d with
+    | nil => rfl
+    | cons tag0 rest =>
+      have h256 : tag0 < 256 := decodeUrlsafe_wf s _ hd tag0 (by simp)
+      obtain ⟨_, _, h1, h2⟩ := c13_src_b64_flags tag0 h256 false false
+      simp only [h1, h2, Bool.false_or]
+      cases Model.crc16 (List.take 34 (tag0 :: rest)) with
+      | none => rfl
+      | some crc => rfl
+
+/-- concrete values: the four tags written, and the flags read from each of them and from a foreign tag. -/
+example : Generated.addrTag true false = 0x11 ∧ Generated.addrTag false false = 0x51 ∧ Generated.addrTag true true = 0x91 ∧
+    Generated.addrTag false true = 0xd1 ∧
+    Generated.b64Bounceable 0x11 false false = true ∧ Generated.b64TestOnly 0x11 false false = false ∧
+    Generated.b64Bounceable 0x91 false false = true ∧ Generated.b64TestOnly 0x91 false false = true ∧
+    Generated.b64Bounceable 0x51 false false = false ∧ Generated.b64TestOnly 0xd1 false false = true ∧
+    Generated.b64Bounceable 0x00 false false = false := by decide
+
+end Src
 
 end TonVerif.Properties.C13
